@@ -110,6 +110,11 @@ func Genesis(app *chain.App, variant string) map[string]json.RawMessage {
 		set("regen.ecocredit.v1.BatchBalance", []m{
 			{"batch_key": 1, "address": ActorAddr(3).Bytes(), "tradable_amount": "100", "retired_amount": "", "escrowed_amount": ""},
 			{"batch_key": 1, "address": ActorAddr(4).Bytes(), "tradable_amount": "70", "retired_amount": "30", "escrowed_amount": ""}})
+		// a basket that exists through the genesis file, holding a ZERO balance row of that batch (legal
+		// for the state validators; Take deletes rows that reach zero, so no message leaves one behind)
+		set("regen.ecocredit.basket.v1.Basket", []interface{}{1, m{"id": 1, "basket_denom": "eco.uC.GEN", "name": "GEN", "disable_auto_retire": true, "credit_type_abbrev": "C", "exponent": 6, "curator": ActorAddr(2).Bytes()}})
+		set("regen.ecocredit.basket.v1.BasketClass", []m{{"basket_id": 1, "class_id": "C09"}})
+		set("regen.ecocredit.basket.v1.BasketBalance", []m{{"basket_id": 1, "batch_denom": "C09-099-20200101-20210101-998", "balance": "0", "batch_start_date": "2020-01-01T00:00:00Z"}})
 	default:
 		panic("unknown genesis variant " + variant)
 	}
